@@ -47,7 +47,10 @@ var c29Units = map[string]struct {
 		broken: "g: ( : ; ;\n",
 	},
 	"js": {
-		units:  []string{"var a = 1;\n", "f(a, b);\n", "if (x) { y(); } else z = 2\n", "a = b + c * d;\n", "function f(q) { return q?.r ?? 1 }\n", "class A extends B { m() {} }\n", "for (let i = 0; i < 3; i++) x += `t${i}`;\n", "// comment\n", "let {a, b: [c]} = o, s = /re/g;\n", "x = (a, b) => ({a, b})\n"},
+		units:  []string{"var a = 1;\n", "f(a, b);\n", "if (x) { y(); } else z = 2\n", "a = b + c * d;\n", "function f(q) { return q?.r ?? 1 }\n", "class A extends B { m() {} }\n", "for (let i = 0; i < 3; i++) x += `t${i}`;\n", "// comment\n", "let {a, b: [c]} = o, s = /re/g;\n", "x = (a, b) => ({a, b})\n",
+			// lookaheads nested in lookaheads, long enough for the polling interval to end inside
+			"g = (a = (b, c, d, e, f, h, i, j, k, l, m, n, o, p, q, r, s, t, u, v, w) => 1, z = (y) => 2) => 3;\n",
+			"h = (a = (b = (c, d, e, f, g, i, j, k, l, m, n, o, p, q, r, s) => 1) => 2) => 3;\n"},
 		broken: "var = ) 1;\n",
 	},
 	"test": {
